@@ -710,7 +710,8 @@ class VMF:
             else:
                 self.node_id.discard(node_id)
 
-        self.ent_id.discard(item.id)
+        # The entity's ID stays reserved until the object itself is destroyed (see Entity.__del__).
+        # Releasing it here as well would let it be handed out twice while this object is reused.
 
     def add_brushes(self, brushes: Iterable['Solid']) -> None:
         """Add multiple brushes to the map."""
